@@ -9,10 +9,14 @@ package p16
 // vlib.Excluded instead of failing the run.
 
 import (
+	"encoding/json"
+	"fmt"
 	"os"
 	"path/filepath"
+	"sort"
 	"strings"
 	"testing"
+	"time"
 
 	"verifharness/vlib"
 )
@@ -39,15 +43,42 @@ func nestingDepth(s string) int {
 	return m
 }
 
-func fuzzOne(t *testing.T, script string) {
+func fuzzOne(t *testing.T, script string) { fuzzCase(t, script, false) }
+
+// fuzzCase: full => the complete timing procedure in-line (replay; no fuzzing engine watchdog).
+func fuzzCase(t *testing.T, script string, full bool) {
 	if len(script) > 4096 || nestingDepth(script) > 60 {
 		vlib.Class(chkFuzz, "skipped:out-of-scope-size")
 		return
 	}
 	c := &Case{Mode: modeRaw, Script: script, Input: fuzzInput, NumKind: "int64", Fuzz: true}
-	res := pool.run(c.request(), false)
+	res := pool.runOpt(c.request(), false, !full)
 	oc := outcomeClass(res)
 	vlib.Record(chkFuzz, script, oc != "outcome:error-syntax", []string{oc}, func() any { return c })
+	if !full && (res.Hang || (res.Resp != nil && time.Duration(res.Resp.WallNs) > slowBound)) {
+		// The go fuzzing engine kills a worker whose input takes more than 10 s, so the three
+		// confirmation runs cannot happen here. What the dump already identifies is settled now;
+		// everything else becomes a suspect that the coordinator process judges with the full
+		// procedure after the fuzzing time is over (see judgeSuspects).
+		where := ""
+		if res.Hang {
+			where = stuckWhere(res.Stderr)
+		} else if hasFlag(res.Resp, "tailcall") {
+			where = "traceback"
+		}
+		switch {
+		case where == "pattern-match" && isOpen(sigPatternHang):
+			vlib.Excluded(chkFuzz, sigPatternHang)
+		case where == "traceback" && isOpen(sigTailcallSlow):
+			vlib.Excluded(chkFuzz, sigTailcallSlow)
+		case where == "array-fill":
+			vlib.Class(chkFuzz, "out-of-scope:memory-bomb")
+		default:
+			vlib.Class(chkFuzz, "suspect-slow-or-hung")
+			writeSuspect(c)
+		}
+		return
+	}
 	if v := evaluate(chkFuzz, c, res); v != nil {
 		if isOpen(v.sig) {
 			vlib.Excluded(chkFuzz, v.sig)
@@ -55,6 +86,65 @@ func fuzzOne(t *testing.T, script string) {
 		}
 		vlib.Fail(t, chkFuzz, v.sig, c, "%s", v.msg)
 	}
+}
+
+func suspectDir() string { return filepath.Join(vlib.OutDir(), "c16-suspects") }
+
+var suspectSeq int
+
+func writeSuspect(c *Case) {
+	_ = os.MkdirAll(suspectDir(), 0o755)
+	suspectSeq++
+	b, _ := json.Marshal(c)
+	_ = os.WriteFile(filepath.Join(suspectDir(), fmt.Sprintf("suspect-%d-%04d.json", os.Getpid(), suspectSeq)), b, 0o644)
+}
+
+type recordingTB struct{ failed bool }
+
+func (r *recordingTB) Fatalf(format string, args ...any) {
+	r.failed = true
+	fmt.Printf("--- FAIL: "+format+"\n", args...)
+}
+func (r *recordingTB) Logf(format string, args ...any) {}
+
+// judgeSuspects runs in the fuzzing coordinator after m.Run: every input a fuzz worker found
+// slow or hung goes through the full timing procedure (re-runs in fresh workers). Returns
+// false when a violation was confirmed (its replay file and failure record are written).
+func judgeSuspects() bool {
+	files, _ := filepath.Glob(filepath.Join(suspectDir(), "suspect-*.json"))
+	sort.Strings(files)
+	ok := true
+	seen := map[string]bool{}
+	judged := 0
+	for _, f := range files {
+		data, err := os.ReadFile(f)
+		if err != nil {
+			continue
+		}
+		var c Case
+		if json.Unmarshal(data, &c) != nil || seen[c.Script] {
+			continue
+		}
+		seen[c.Script] = true
+		if judged >= 8 { // each confirmed hang costs about 25 s
+			vlib.Note(chkFuzz, "more than 8 suspects; not judged: "+f)
+			continue
+		}
+		judged++
+		res := pool.run(c.request(), true)
+		v := evaluate(chkFuzz, &c, res)
+		switch {
+		case v == nil:
+			vlib.Class(chkFuzz, "suspect-cleared")
+		case isOpen(v.sig):
+			vlib.Excluded(chkFuzz, v.sig)
+		default:
+			tb := &recordingTB{}
+			vlib.Fail(tb, chkFuzz, v.sig, &c, "%s", v.msg)
+			ok = false
+		}
+	}
+	return ok
 }
 
 func FuzzC16Script(f *testing.F) {
@@ -65,7 +155,7 @@ func FuzzC16Script(f *testing.F) {
 			if script != rc.Script {
 				return
 			}
-			fuzzOne(t, script)
+			fuzzCase(t, script, true)
 		})
 		return
 	}
